@@ -71,8 +71,12 @@ func ucall(f string, xs ...*node) *node {
 // function names are case-insensitive)
 var caseRng *common.Rng
 
+// mixedCaseNames relies on repo fix C08-2 (defun registers the lower-case name); set it to false if that fix is
+// not taken: the defect is then a known finding and function names must be written in lower case only.
+const mixedCaseNames = true
+
 func spell(s string) string {
-	if caseRng == nil {
+	if caseRng == nil || !mixedCaseNames {
 		return s
 	}
 	switch x := caseRng.Intn(100); {
